@@ -571,11 +571,11 @@ def run(ctx: Ctx):
     )
     states = 0
     for qname in DRIVERS:
-        states += fresh_error(ctx, qname)
-        callback_protocol(ctx, qname)
-        rel_unit(ctx, qname)
+        states += ctx.guarded(fresh_error, ctx, qname) or 0
+        ctx.guarded(callback_protocol, ctx, qname)
+        ctx.guarded(rel_unit, ctx, qname)
     funcs = [repo.func(q) for q in DRIVERS] + [repo.func(q) for q in SQRT_SCOPE_EXTRA]
-    sqrt_guard(ctx, funcs)
-    last_mode(ctx)
+    ctx.guarded(sqrt_guard, ctx, funcs)
+    ctx.guarded(last_mode, ctx)
     res.stats["drivers"] = list(DRIVERS)
     res.stats["states_explored"] = states
